@@ -121,9 +121,12 @@ def gen_builtin(rng, nmax):
     scale = rng.choice([1.0, 1.0, 1e-3, 2e-5, 50.0])
     as_int = scale == 1.0 and rng.random() < 0.5  # integer-typed data (counts) with a fractional baseline
     X = [[rng.randint(-4, 4) if as_int else (rng.randint(-4, 4) + rng.choice([0, 0.5, 0.25])) * scale for _ in range(p)] for _ in range(n)]
-    return {"n": n, "p": p, "X": X, "scale": scale, "cost": rng.choice(["l2", "gvar", "gcov"]), "int": as_int,
+    case = {"n": n, "p": p, "X": X, "scale": scale, "cost": rng.choice(["l2", "gvar", "gcov"]), "int": as_int,
             "mean": rng.choice([0.0, 0.5, -1.0, 2.5, 0.75]) * scale, "var": rng.choice([0.5, 1.0, 4.0]) * scale * scale,
             "seed": rng.randint(0, 10**6)}
+    if p >= 2 and rng.random() < 0.4:  # a baseline mean per column, exactly 0 in some columns and not in others
+        case["mean"] = [rng.choice([0.0, 0.0, 0.5, -1.0, 2.5]) * scale for _ in range(p)]
+    return case
 
 
 def direct_cost(case, rows, fixed):
@@ -132,11 +135,11 @@ def direct_cost(case, rows, fixed):
     rows = np.asarray(rows, dtype=float)
     m = len(rows)
     if case["cost"] == "l2":
-        mu = case["mean"] if fixed else rows.mean(axis=0)
+        mu = np.asarray(case["mean"], dtype=float) if fixed else rows.mean(axis=0)
         return ((rows - mu) ** 2).sum(axis=0)
     if case["cost"] == "gvar":
         if fixed:
-            return m * np.log(2 * np.pi * case["var"]) + ((rows - case["mean"]) ** 2).sum(axis=0) / case["var"]
+            return m * np.log(2 * np.pi * case["var"]) + ((rows - np.asarray(case["mean"], dtype=float)) ** 2).sum(axis=0) / case["var"]
         return m * np.log(2 * np.pi * np.maximum(rows.var(axis=0), 1e-16)) + m
     return _mk(case, fixed).fit(rows).evaluate(np.array([[0, m]]))[0]
 
@@ -146,6 +149,8 @@ def _mk(case, fixed):
 
     def f(v):  # integral fixed parameters are also passed as Python / NumPy integers (a third of the cases)
         k = core._bits(case, 4, 3)
+        if isinstance(v, list):  # one mean per column: as an array or as a plain list
+            return np.array(v, dtype=float) if k != 1 else list(v)
         if k and float(v) == int(float(v)) and abs(v) < 2**31:
             return int(v) if k == 1 else np.int64(int(v))
         return v
@@ -266,7 +271,8 @@ def gen_refit(rng, nmax):
     n = rng.randint(5, nmax)
     adapter = rng.choice(["change", "saving", "local", "cusum", "l2saving"])
     k = {"change": 3, "saving": 2, "local": 4, "cusum": 3, "l2saving": 2}[adapter]
-    scen = rng.choice(["inplace", "inplace", "fresh", "shared", "nested", "nested"] if adapter in ("change", "saving", "local") else ["inplace", "fresh"])
+    scen = rng.choice(["inplace", "inplace", "fresh", "shared", "nested", "nested", "two-alive"] if adapter in ("change", "saving", "local")
+                      else ["inplace", "fresh", "two-alive"])
     mk = lambda: [[rng.randint(-3, 3) for _ in range(p)] for _ in range(n)]  # noqa: E731
     return {"adapter": adapter, "scenario": scen, "n": n, "p": p, "X1": mk(), "X2": mk(), "weight": rng.choice([1, 2]),
             "param": rng.choice([-2, 1, 3]), "cuts": gen_cuts(rng, n, k, 1, rng.randint(2, 6)), "eval_between": rng.random() < 0.5,
@@ -298,6 +304,18 @@ def impl_refit(case):
             sc.set_params(**{key + "__weight": case["weight2"], key + "__param": case["param2"]})
             sc.fit(X)
             return {"outcome": "ok", "final": "X1", "vals": sc.evaluate(cuts).tolist()}
+        if case["scenario"] == "two-alive":
+            # two scorers of the same kind (separate cost objects) are fitted to different data and used in turn
+            cost2 = MultisetCost(param=cost.param, weight=w)
+            sc2 = {"change": lambda: ChangeScore(cost2), "saving": lambda: Saving(cost2), "local": lambda: LocalAnomalyScore(cost2),
+                   "cusum": CUSUM, "l2saving": L2Saving}[ad]()
+            sc.fit(X)
+            sc2.fit(np.array(case["X2"], dtype=float))
+            first = sc.evaluate(cuts).tolist()
+            second = sc2.evaluate(cuts).tolist()
+            if case["eval_between"]:  # judge the first scorer, evaluated again after the second one was used
+                return {"outcome": "ok", "final": "X1", "vals": sc.evaluate(cuts).tolist(), "first": first}
+            return {"outcome": "ok", "final": "X2", "vals": second}
         sc.fit(X)
         if case["eval_between"]:
             sc.evaluate(cuts)
@@ -347,6 +365,7 @@ def oracle_refit(case, r):
             want = (X[s:e] ** 2).sum(axis=0) - L2(X[s:e])
         if not np.allclose(got, want, rtol=1e-9, atol=1e-9):
             how = {"inplace": "re-fitted on the same array object after its contents were replaced in place",
+                   "two-alive": "used alongside a second scorer of the same kind that was fitted to other data (the defining difference is taken on its own data)",
                    "fresh": "re-fitted on a new array", "shared": "re-fitted after another adapter sharing its cost object was fitted to other data",
                    "nested": f"fitted after set_params(<cost>__weight={case.get('weight2')}, <cost>__param={case.get('param2')})"}
             return (f"{ad} score at cut {c} is {got.tolist()} after the scorer was {how[case['scenario']]}; the defining cost difference on "
